@@ -16,3 +16,10 @@ package keeper
 //@ func (k Keeper) Liquidate
 //@   property C15
 //@   note un-wrapped callees LiquidateBorrows and LiquidateForSurplusAndDebt are not yet under a nopanic contract
+
+// The borrow sweep (C15): each per-borrow step should be all-or-nothing and the sweep must not panic.
+//@ func (k Keeper) LiquidateBorrows
+//@   property C15
+//@   modifies liquidationsV2
+//@   requires #batch-bound: k.GetParams(ctx).LiquidationBatchSize <= pow2(62)
+//@   nopanic
